@@ -171,9 +171,11 @@ class Heading(BlockToken):
             return False
         cls.level = len(match_obj.group(1))
         cls.content = (match_obj.group(2) or '').strip()
-        if set(cls.content) == {'#'}:
-            cls.content = ''
         cls.closing_sequence = (match_obj.group(3) or '').strip()
+        if set(cls.content) == {'#'}:
+            # a heading without content: what looks like content is the closing sequence
+            cls.closing_sequence = cls.content
+            cls.content = ''
         return True
 
     @classmethod
